@@ -1,6 +1,6 @@
 \* thorough: every lifetime 1..20000 ms in 1 ms steps + hours
 CONSTANTS
-  Lifetimes = 1..20000 \cup {60000 * i : i \in 1..120}
+  Lifetimes <- LifetimesT
   Dev_RenewFloorSeconds = FALSE
   L = 2000
   Step = 500
